@@ -123,3 +123,21 @@ package controller
 //@ func genericFederatedRequestHandler.remoteQueryUUIDs property C19 safety -bounds,-nil
 //@   calls Values.Encode#1: requires $recv == remoteParams && (forall k string :: has(remoteParams, k) ==> k == "_method" || k == "count" || k == "select" || k == "filters")
 //@   calls Handler.remoteClusterRequest#1: requires $0 == clusterID && clusterID != h.handler.Cluster.ClusterID
+
+// fetchRemoteCollectionByUUID (legacy path): every GET that names a collection
+// uuid of another cluster - whatever follows the uuid in the path - is answered
+// here, from that cluster, through rewriteSignatures (hash check, +A -> +R);
+// "not handled" (false: the generic handler then relays the remote's answer
+// untouched) is returned only for other methods, for requests without a uuid
+// and for uuids of this cluster.
+//@ func fetchRemoteCollectionByUUID property C18 safety -bounds,-nil
+//@   ghost rs *http.Response = nil
+//@   ghost rw *http.Response = nil
+//@   ghost rwerr error = nil
+//@   calls Handler.remoteClusterRequest#1: requires $0 == uuid[0:5] && $1 == req
+//@   calls Handler.remoteClusterRequest#1: set rs = $r0
+//@   calls rewriteSignatures#1: requires $1 == "" && $2 == rs
+//@   calls rewriteSignatures#1: set rw = $r0
+//@   calls rewriteSignatures#1: set rwerr = $r1
+//@   calls proxy.ForwardResponse#1: requires $0 == w && $1 == rw && $2 == rwerr
+//@   ensures effectiveMethod == "GET" && len(uuid) >= 5 && uuid[0:5] != h.handler.Cluster.ClusterID ==> result
